@@ -131,6 +131,9 @@ def td : P String := do
   let mut mdl := init
   let mut mdlC := initC
   let mut v : Verdict := { tag := s!"td-{L}-m{mode}" }
+  -- mode 0: the start table is what the constructor produced ("zero-initialised tables" is a clause of the property)
+  if mode == 0 && L != "esarsa" && L != "esarsap" then
+    v := v.failIf (!zeroStart) s!"{comp} table_not_zero_initialised start={showRows init}"
   let mut exact := 0
   let mut nxt : List ((Nat × Nat) × Nat) := []
   let mut hypOK := true
@@ -265,6 +268,7 @@ def trCore (withObj : Bool) : P String := do
   let πtR := if kt == 0 then πtR0 else toRows S A (polOf kt εt A (ofRows πtR0) (ofRows ttR))
   let πbR := if kb == 0 then πbR0 else toRows S A (polOf kb εb A (ofRows πbR0) (ofRows tbR))
   let init ← tab S A
+  let fresh ← P.nat        -- 1: `init` is the constructor's own table (no setQFunction)
   let n ← P.nat
   if A == 0 || S == 0 then P.fail
   let comp := component L
@@ -285,6 +289,8 @@ def trCore (withObj : Bool) : P String := do
   let mut mQ := init
   let mut v : Verdict := { tag := s!"tr-{L}" ++ (if lam == 0 then "-lam0" else "") ++ (if withObj then s!" obj{kt}{kb}" else "") }
   let mut ill := false
+  if fresh == 1 then
+    v := v.failIf (!(init.all (fun r => r.all (· == 0)))) s!"{comp} table_not_zero_initialised start={showRows init}"
   let mut savedT : List Tr := []      -- the list the caller kept (implementation's own output at the time)
   let mut savedM : List Tr := []      -- its counterpart on the pure model trajectory
   let mut nBook := 0
